@@ -295,3 +295,16 @@ Proof.
     - apply (P3 (x :: r) o2 x H1 H2); [left; reflexivity | apply Hsame; left; reflexivity]. }
   split; [exact Hk|]. intros O' PO. exact (proj1 (proj2 (proj2 (proj2 (orbit_order (a_orbits (analyze fn fe g)) []))) ) O' PO Hk).
 Qed.
+
+(** the attribute-dictionary observable of an [aut] case is the same composition on [to_graph DEF_NODE DEF_EDGE ag], with the
+    4-attribute estimate on [to_graph WL4 DEF_EDGE ag] *)
+From SK Require Import model.C11_Keys model.C11_Attr model.C11_AttrFull.
+Lemma run_aut_full_attr_eq (ag : agraph) :
+  let g4 := to_graph WL4 DEF_EDGE ag in
+  let gx := to_graph DEF_NODE DEF_EDGE ag in
+  let a := analyze n_exact e_order gx in
+  run_aut_full_attr ag =
+  L [ L [ tN (a_count a); t_sets (a_orbits a); tlist (tset tN) (a_comps a); topt (tset tN) (a_anchor a);
+          wl_obs n_wl g4; wl_obs n_exact gx ];
+      tbool (wfb gx); tlist t_maps (aut_lists gx); run_aut_oa gx; run_order gx ].
+Proof. unfold run_aut_full_attr, aut_lists, run_aut_oa, run_order. cbv zeta. rewrite analyze_comps. reflexivity. Qed.
